@@ -145,6 +145,27 @@ Proof.
     split; [lia|]. apply Z.pow_pos_nonneg; lia.
 Qed.
 
+(** * generic list facts *)
+Lemma fold_left_ext_in {A B} (f g : A -> B -> A) l :
+  (forall a x, In x l -> f a x = g a x) -> forall a, fold_left f l a = fold_left g l a.
+Proof.
+  induction l as [|x l IH]; intros H a; [reflexivity|].
+  cbn [fold_left]. rewrite H by (left; reflexivity). apply IH. intros; apply H; now right.
+Qed.
+
+Lemma nthZ_app_shift {A} (c l : list A) k : 0 <= k -> nthZ (c ++ l) (zlen c + k) = nthZ l k.
+Proof.
+  intros Hk. unfold nthZ, zlen. destruct (Z.ltb_spec (Z.of_nat (length c) + k) 0); [lia|].
+  destruct (Z.ltb_spec k 0); [lia|].
+  rewrite nth_error_app2 by lia. f_equal. lia.
+Qed.
+
+Lemma zrange_cons k : 0 <= k -> zrange (1 + k) = 0 :: map (Z.add 1) (zrange k).
+Proof.
+  intros Hk. unfold zrange. replace (Z.to_nat (1 + k)) with (S (Z.to_nat k)) by lia.
+  cbn [seq map]. f_equal. rewrite <- seq_shift, !map_map. apply map_ext. intros a. lia.
+Qed.
+
 Section ToStr.
   Variable n : nat.
   Hypothesis Hn : widthP n.
@@ -206,20 +227,6 @@ Section ToStr.
   Qed.
 
   (** byte i+1 of a list that starts with a full group is byte i of the rest *)
-  Lemma fold_left_ext_in {A B} (f g : A -> B -> A) l :
-    (forall a x, In x l -> f a x = g a x) -> forall a, fold_left f l a = fold_left g l a.
-  Proof.
-    induction l as [|x l IH]; intros H a; [reflexivity|].
-    cbn [fold_left]. rewrite H by (left; reflexivity). apply IH. intros; apply H; now right.
-  Qed.
-
-  Lemma nthZ_app_shift {A} (c l : list A) k : 0 <= k -> nthZ (c ++ l) (zlen c + k) = nthZ l k.
-  Proof.
-    intros Hk. unfold nthZ, zlen. destruct (Z.ltb_spec (Z.of_nat (length c) + k) 0); [lia|].
-    destruct (Z.ltb_spec k 0); [lia|].
-    rewrite nth_error_app2 by lia. f_equal. lia.
-  Qed.
-
   Lemma ToStr_byte_shift c l i : length c = m -> 0 <= i ->
     ToStr_byte w (c ++ l) (1 + i) = ToStr_byte w l i.
   Proof.
@@ -233,13 +240,7 @@ Section ToStr.
       destruct (Z.ltb_spec (i * Z.of_nat m + j) (zlen l)); try lia; reflexivity.
   Qed.
 
-  (** * the byte count and the index range of the outer loop *)
-  Lemma zrange_cons k : 0 <= k -> zrange (1 + k) = 0 :: map (Z.add 1) (zrange k).
-  Proof.
-    intros Hk. unfold zrange. replace (Z.to_nat (1 + k)) with (S (Z.to_nat k)) by lia.
-    cbn [seq map]. f_equal. rewrite <- seq_shift, !map_map. apply map_ext. intros a. lia.
-  Qed.
-
+  (** * the byte count of the outer loop *)
   Definition tostr_sz (bs : list Z) : Z := (zlen bs + byteCap w - 1) / byteCap w.
 
   Lemma tostr_sz_nil : tostr_sz [] = 0.
